@@ -49,7 +49,7 @@ def gen_distinct(rnd):
         if rnd.random() < 0.2:
             sel.append(item(["bin", "plus", col("a"), num(0)], "e"))
     q = select(sel, table("t"), distinct=True)
-    return mk_case({"t": rows}, q, mode="seq", tag="distinct")
+    return mk_case({"t": rows}, q, mode="seq", tag="distinct", num_kind=rnd.choice(["int", "int64", "int32", "uint8", "float32"]) if rnd.random() < 0.1 else None)
 
 
 def gen_branch(rnd, tname):
@@ -83,7 +83,7 @@ def gen_union(rnd):
             if rnd.random() < 0.5:
                 offset = rnd.randint(0, 4)
         q = ["union", [], q, branches[i], distinct, [], limit, offset, {}]
-    return mk_case(doc, q, mode="seq", tag="union%d" % nb)
+    return mk_case(doc, q, mode="seq", tag="union%d" % nb, num_kind=rnd.choice(["int", "int64", "int32", "uint8", "float32"]) if rnd.random() < 0.1 else None)
 
 
 def nontrivial(c, g, l):
